@@ -432,7 +432,7 @@ func labEng(e labEnv) {
 	tags["enumerated"] = len(cases)
 	n := 1200
 	if e.thorough() {
-		n = 12000
+		n = 60000
 	}
 	for i := 0; i < n; i++ {
 		cases = append(cases, genEngCase(r, i))
